@@ -19,6 +19,8 @@ import numpy as np
 
 HDR = ("From Coq Require Import ZArith List Bool.\nFrom NV.C11 Require Import Model.\n"
        "Import ListNotations.\nOpen Scope Z_scope.\n")
+HDRQ = ("From Coq Require Import QArith List Bool.\nFrom NV.C11 Require Import ModelQ.\n"
+        "Import ListNotations.\nClose Scope Q_scope.\n")
 
 INF = float("inf")
 
@@ -38,6 +40,21 @@ def cE(edges):
 
 def cnat(n):
     return "%d%%nat" % int(n)
+
+
+def cQE(edges):
+    """[(u, v, w)] with exact rational weights -> list qedge literal"""
+    out = []
+    for u, v, w in edges:
+        f = Fraction(w) if not isinstance(w, float) else Fraction(*w.as_integer_ratio())
+        out.append("(%d%%nat,%d%%nat,(%d#%d)%%Q)" % (u, v, f.numerator, f.denominator))
+    return "[" + ";".join(out) + "]"
+
+
+def elist(g):
+    if not g.E:
+        return []
+    return [(int(a), int(b), float(w)) for (a, b), w in zip(np.asarray(g.edges).reshape(-1, 2).tolist(), np.asarray(g.weights).ravel().tolist())]
 
 
 def cnats(xs):
@@ -322,6 +339,7 @@ def sec_sp(ck, G, T):
             continue
         g = mkgraph(WeightedGraph, V, edges)
         order = akey(V, edges)
+        T.newgraph(cE(edges))
         try:
             idx, neighb, weight = g.compact_neighb()
         except Exception as e:  # noqa
@@ -401,6 +419,7 @@ def sec_sym(ck, G, T):
         ck.count(("sym", V, tuple(edges)), nontrivial=len(edges) > 0, bucket=bucket)
         ref_lab = components(V, edges)
         k = max(ref_lab) + 1
+        T.newgraph(cE(edges))
         g = mkgraph(WeightedGraph, V, edges) if edges else WeightedGraph(V)
         # ---- cc
         try:
@@ -582,6 +601,7 @@ def point_clouds(ck, rng):
 def sec_builders(ck, G, B, T):
     rng = ck.rng("builders")
     nk = 0
+    T.newgraph(None)
     ck._c11_mst_hangs = 0
     for X in point_clouds(ck, rng):
         n = X.shape[0]
@@ -847,6 +867,7 @@ def sec_structural(ck, G, T):
 
         def adj(g):
             return dense(g.V, g.V, g.edges, g.weights) if g.E else np.zeros((g.V, g.V))
+        qparts = []
         # to_coo_matrix
         try:
             if not np.array_equal(fresh().to_coo_matrix().toarray(), A):
@@ -859,6 +880,8 @@ def sec_structural(ck, G, T):
             cp = [tuple(x) for x in np.asarray(c.edges).reshape(-1, 2).tolist()] if c.E else []
             if not np.array_equal(adj(c), A) or len(set(cp)) != len(cp):
                 ck.fail("cut_redundancies/wrong", "cut_redundancies: adjacency changed or an edge is still repeated", rp)
+            if not zero:
+                qparts.append("qel_eqb (cut_redundancies_model %s %s) %s" % (cnat(V), cQE(edges), cQE(sorted(elist(c)))))
         except Exception as e:  # noqa
             ck.fail("cut_redundancies/zero-weight-raises" if zero else "cut_redundancies/raises",
                     "cut_redundancies() raised %s: %s on edges %s (x.nonzero() drops stored zeros, x.data keeps them)" % (type(e).__name__, e, edges), rp)
@@ -868,8 +891,10 @@ def sec_structural(ck, G, T):
             g.symmeterize()
             if not np.array_equal(adj(g), (A + A.T) / 2):
                 ck.fail("symmeterize/not-(A+At)/2", "symmeterize: adjacency %s, expected (A+A^T)/2 = %s" % (adj(g).tolist(), ((A + A.T) / 2).tolist()), rp)
+            qparts.append("qel_eqb (symmeterize_model %s %s) %s" % (cnat(V), cQE(edges), cQE(sorted(elist(g)))))
             g = fresh()
             g.anti_symmeterize()
+            qparts.append("qel_eqb (anti_symmeterize_model %s %s) %s" % (cnat(V), cQE(edges), cQE(sorted(elist(g)))))
             if not np.array_equal(adj(g), (A - A.T) / 2):
                 ck.fail("anti_symmeterize/not-(A-At)/2", "anti_symmeterize: adjacency %s, expected %s" % (adj(g).tolist(), ((A - A.T) / 2).tolist()), rp)
         except Exception as e:  # noqa
@@ -880,6 +905,7 @@ def sec_structural(ck, G, T):
             ne = g.remove_trivial_edges()
             want = [(u, v, w) for u, v, w in edges if u != v]
             got = [(int(a), int(b), int(w)) for (a, b), w in zip(np.asarray(g.edges).reshape(-1, 2).tolist(), np.asarray(g.weights).tolist())]
+            qparts.append("qel_eqb (remove_trivial_model %s) %s" % (cQE(edges), cQE(elist(g))))
             if got != want or int(ne) != len(want) or int(g.E) != len(want):
                 ck.fail("remove_trivial_edges/wrong", "remove_trivial_edges: got %s expected %s" % (got, want), rp)
         except Exception as e:  # noqa
@@ -894,6 +920,8 @@ def sec_structural(ck, G, T):
                     ck.fail("subgraph/empty-mask", "subgraph(all zero) must be None", rp)
             else:
                 want = A[np.ix_(keep, keep)]
+                if sg is not None:
+                    qparts.append("qel_eqb (subgraph_model %s %s) %s" % (cbools(keep.tolist()), cQE(edges), cQE(elist(sg))))
                 if sg is None or sg.V != keep.sum() or not np.array_equal(adj(sg), want):
                     ck.fail("subgraph/not-the-induced-submatrix", "subgraph(%s): adjacency is not A[valid][:, valid]" % valid.tolist(),
                             dict(rp, valid=valid.tolist()))
@@ -908,10 +936,13 @@ def sec_structural(ck, G, T):
             want = np.zeros((V + V2, V + V2))
             want[:V, :V] = A
             want[V:, V:] = adj(g2)
+            qparts.append("qel_eqb (concatenate_model %s %s %s) %s" % (cnat(V), cQE(edges), cQE(e2), cQE(elist(cg))))
             if cg.V != V + V2 or not np.array_equal(adj(cg), want):
                 ck.fail("concatenate_graphs/not-block-diagonal", "concatenate_graphs: adjacency is not blockdiag(A1, A2)", dict(rp, edges2=e2))
         except Exception as e:  # noqa
             ck.fail("concatenate_graphs/raises", "%s: %s" % (type(e).__name__, e), rp)
+        if qparts and V <= 6:
+            T.add("structural", " && ".join("(%s)" % q for q in qparts), dict(rp, valid=valid.tolist()), hdr=HDRQ)
         # normalize (positive weights only: a zero row sum is documented as "nothing is performed")
         if zero:
             continue
@@ -946,13 +977,70 @@ def sec_structural(ck, G, T):
 class Terms:
     def __init__(self):
         self.items = []
+        self.qitems = []      # terms over the rational-weight models (header HDRQ)
+        self.gid = 0
+        self.glit = None
+        self.groups = []      # group id of each entry of self.items
 
-    def add(self, kind, term, replay, show=None):
-        self.items.append((kind, term, replay, show))
+    def newgraph(self, lit):
+        """terms added until the next call are about one graph whose edge literal is `lit`"""
+        self.gid += 1
+        self.glit = lit
+
+    def add(self, kind, term, replay, show=None, hdr=None):
+        if hdr is not None:
+            self.qitems.append((kind, term, replay, show))
+        else:
+            self.items.append((kind, term, replay, show))
+            self.groups.append((self.gid, self.glit))
 
     @staticmethod
     def heavy(item):
-        return len(item[1]) > 5000
+        return len(item[1]) > 3000
+
+    def eval_items(self, ck):
+        """Light terms of one graph are merged into one conjunction that binds the edge list once
+        (`let E_ := ... in t1 && t2 ...`); members of a failing conjunction are re-evaluated one by one."""
+        n = len(self.items)
+        res = [None] * n
+        merged, heavy = {}, []
+        for i, it in enumerate(self.items):
+            gid, lit = self.groups[i]
+            if self.heavy(it):
+                heavy.append(i)
+            elif lit is None:
+                merged[("single", i)] = [i]
+            else:
+                merged.setdefault(gid, []).append(i)
+        glist = list(merged.values())
+        terms = []
+        for idxs in glist:
+            lit = self.groups[idxs[0]][1]
+            if lit is None:
+                terms.append(self.items[idxs[0]][1])
+                continue
+            terms.append("let E_ := %s in %s" % (lit, " && ".join("(%s)" % self.items[i][1].replace(lit, "E_") for i in idxs)))
+        import time as _t
+        _t0 = _t.time()
+        r1 = ck.coq_bools(HDR, terms, shard=400, name="light")
+        _t1 = _t.time()
+        redo = []
+        for ok, idxs in zip(r1, glist):
+            if ok:
+                for i in idxs:
+                    res[i] = True
+            else:
+                redo += idxs
+        singles = heavy + redo
+        light_redo = [i for i in redo]
+        r2 = ck.coq_bools(HDR, [self.items[i][1] for i in light_redo], shard=200, name="redo")
+        for i, ok in zip(light_redo, r2):
+            res[i] = ok
+        r3 = ck.coq_bools(HDR, [self.items[i][1] for i in heavy], shard=6, name="heavy")
+        for i, ok in zip(heavy, r3):
+            res[i] = ok
+        ck.section("timing", coq_light_s=round(_t1 - _t0, 1), coq_heavy_s=round(_t.time() - _t1, 1), light_groups=len(terms), heavy_terms=len(heavy))
+        return res
 
     def run(self, ck):
         if ck.build is None or not ck.build.ok:
@@ -960,10 +1048,9 @@ class Terms:
             return
         # cheap terms first within each shard is irrelevant; keep generation order (small to large)
         # large graphs are evaluated in small shards of their own so that they spread over the worker processes
-        self.items.sort(key=lambda it: 1 if self.heavy(it) else 0)   # stable: small cases first, so the first failure is the smallest
-        nl = sum(1 for it in self.items if not self.heavy(it))
-        res = ck.coq_bools(HDR, [t for _, t, _, _ in self.items[:nl]], shard=1000, name="light")
-        res += ck.coq_bools(HDR, [t for _, t, _, _ in self.items[nl:]], shard=4, name="heavy")
+        res = self.eval_items(ck)
+        res += ck.coq_bools(HDRQ, [t for _, t, _, _ in self.qitems], shard=300, name="q")
+        self.items = self.items + self.qitems
         ck.cov["traces_validated_against_impl"] += len(res)
         by = {}
         for ok, (kind, term, replay, show) in zip(res, self.items):
@@ -1002,7 +1089,7 @@ def run(ck):
     ta = time.time()
     ck.coq_build()
     tb = time.time()
-    ck.overlay()
+    ck.overlay(["nipy.algorithms.graph._graph"])     # the only compiled module the graph package needs
     import nipy.algorithms.graph.graph as G
     T = Terms()
     t0 = time.time()
